@@ -4,7 +4,7 @@ import common
 
 LEAN_MODULES = ['OpusProps.C17']
 GEN = ['CeltTables', 'SilkIcdf']
-SOURCES = ['celt/cwrs.c', 'celt/cwrs.h', 'celt/laplace.c', 'celt/laplace.h', 'celt/quant_bands.c', 'celt/rate.c',
+SOURCES = ['celt/cwrs.c', 'celt/celt_decoder.c', 'celt/celt_encoder.c', 'celt/cwrs.h', 'celt/laplace.c', 'celt/laplace.h', 'celt/quant_bands.c', 'celt/rate.c',
            'celt/rate.h', 'celt/vq.c', 'celt/celt.h', 'celt/modes.c', 'celt/static_modes_float.h', 'celt/entcode.h',
            'silk/tables_LTP.c', 'silk/tables_NLSF_CB_NB_MB.c', 'silk/tables_NLSF_CB_WB.c', 'silk/tables_gain.c',
            'silk/tables_other.c', 'silk/tables_pitch_lag.c', 'silk/tables_pulses_per_block.c', 'silk/tables.h',
@@ -20,8 +20,9 @@ RULE = ('cwrs: for every (N,K) of the static mode\'s pulse cache (23 band sizes 
 NOT_COVERED = [
     'the range coder itself (ec_enc_uint/ec_dec_uint, ec_encode_bin/ec_decode_bin, ec_enc_icdf/ec_dec_icdf) is property C08; '
     'here it is stubbed in the correspondence and used for real only in the witness search',
-    'compute_pulse_cache itself is CUSTOM_MODES-only code and is not compiled in this configuration: the theorems tie its Lean '
-    're-implementation (index, bits and caps) to the SHIPPED tables; the C function is not run',
+    'compute_pulse_cache is CUSTOM_MODES-only code and is not part of the library in this configuration: the theorems tie its Lean '
+    're-implementation (index, bits and caps) to the SHIPPED tables, and the search re-runs the C function (compiled in a harness TU '
+    'with CUSTOM_MODES) against the same tables; the two are not compared line by line',
     'SMALL_FOOTPRINT and CUSTOM_MODES variants of cwrs.c (not compiled in this configuration)',
     'ICDF tables built at run time other than the Laplace _p0 ones and the VAD/LBRR placeholder (e.g. none known)',
     'that each call site passes the ftb recorded in OpusModel/Icdf.lean is checked by a source scan (tie icdf-ftb-scan), not by the compiler',
@@ -212,16 +213,19 @@ def search(ctx):
                      'ending at 32768, every fm decodes into the encoder\'s interval, for all e_prob_model pairs, random legal pairs '
                      'and a sweep of the documented (fs,decay) domain; every (table contents, ftb) pair that reaches '
                      'ec_enc_icdf/ec_dec_icdf (link-time --wrap) while the public encoder/decoder run over 120 configurations is '
-                     'a well-formed ICDF for the ftb of that call'}
+                     'a well-formed ICDF for the ftb of that call; the real compute_pulse_cache (CUSTOM_MODES code, compiled in the '
+                     'harness TU) re-run on the static mode reproduces the shipped cache.index/bits/caps word for word'}
     level = '0' if ctx.quick else '1'
     hs = _harness(ctx, 'c17_search', 'plain', opt='-O2')
     hl = _harness(ctx, 'c17_laplace', 'plain', opt='-O2')
     hsites = _harness(ctx, 'c17_sites', 'plain', opt='-O2', extra=WRAP)
-    with concurrent.futures.ThreadPoolExecutor(max_workers=3) as ex:
+    hcaps = _harness(ctx, 'c17_caps', 'plain', opt='-O1')
+    with concurrent.futures.ThreadPoolExecutor(max_workers=4) as ex:
+        f4 = ex.submit(common.sh, [hcaps], None, 600)
         f1 = ex.submit(common.sh, [hs, level, str(ctx.seed)], None, 3000)
         f2 = ex.submit(common.sh, [hl, 'search', level, str(ctx.seed)], None, 3000)
         f3 = ex.submit(common.sh, [hsites, 'search', str(ctx.seed), '30' if ctx.quick else '200'], None, 3000)
-        for name, f in (('c17_search', f1), ('c17_laplace search', f2), ('c17_sites search', f3)):
+        for name, f in (('c17_search', f1), ('c17_laplace search', f2), ('c17_sites search', f3), ('c17_caps', f4)):
             rc, out = f.result()
             _parse(out, res)
             if rc != 0 or not re.search(r'^S cases=', out, re.M):
